@@ -169,13 +169,30 @@ def run(ctx: Context, rep) -> None:
            construct=short(hc[0], 110) if hc else "<none>",
            message="root digests are those of the description file under the "
            "configured algorithms")
+    # the verifier receives either the ShardListInfo record or its FileInfo
+    from sa import norm
+    param = rec.params()[1]
+    ann = rec.param_annotation(param)
+    takes_file = ann is not None and "FileInfo" in ast.unparse(ann)
+    rec_file = param if takes_file else f"{param}.shard_list_info_file"
+
+    def passes_record(fn_, call, elem: str) -> bool:
+        """the call hands over the record of `elem` in the form the verifier
+        takes"""
+        if not call.args and not call.keywords:
+            return False
+        a = (list(call.args) + [k.value for k in call.keywords])[0]
+        want = f"{elem}.shard_list_info_file" if takes_file else elem
+        return norm.canon(fn_, a) == want
+
     # (b) all splits -> recursive verifier
     loops = [n for n in check.body_nodes() if isinstance(n, ast.For)]
     l1 = [l for l in loops if ast.unparse(l.iter) in (
         "self._dataset_info.splits.values()", )]
     ok_b = len(l1) == 1 and any(
-        ctx.is_call(check, c, method="_check_shard_list_info") and c.args and
-        dotted(c.args[0]) == dotted(l1[0].target) for c in ast.walk(l1[0])
+        ctx.is_call(check, c, method="_check_shard_list_info") and
+        passes_record(check, c, dotted(l1[0].target))
+        for c in ast.walk(l1[0])
         if isinstance(c, ast.Call)) and not any(
             isinstance(x, (ast.Break, ast.Continue, ast.If))
             for x in ast.walk(l1[0]))
@@ -239,9 +256,8 @@ def run(ctx: Context, rep) -> None:
             t = n.targets[0] if isinstance(n, ast.Assign) else n.target
             if dotted(t) == "file_path":
                 fp_def = n.value
-    param = rec.params()[1]
     ok_r = len(rhc) == 1 and len(reads) == 1 and fp_def is not None and \
-        ast.unparse(fp_def) == f"{param}.shard_list_info_file.file_path" and \
+        norm.canon(rec, fp_def) == f"{rec_file}.file_path" and \
         ast.unparse(ctx.arg(rhc[0], 0, "file_path")) == "self.path / file_path" \
         and ast.unparse(reads[0].func.value) == "self.path / file_path" and \
         "hash_checksum_algorithms" in ast.unparse(ctx.arg(rhc[0], 1, "hashes"))
@@ -252,17 +268,18 @@ def run(ctx: Context, rep) -> None:
            "hashed and the one parsed")
     exp = [n for n in rec.body_nodes() if isinstance(n, (ast.Assign,
                                                          ast.AnnAssign))
-           and "hash_checksums" in ast.unparse(n.value or ast.Constant(0)) and
-           "shard_list_info_file" in ast.unparse(n.value or ast.Constant(0))]
-    rep.ob("C05.cover", len(exp) == 1 and ast.unparse(exp[0].value) ==
-           f"{param}.shard_list_info_file.hash_checksums", loc=rec.loc(),
+           and n.value is not None and norm.canon(rec, n.value).endswith(
+               ".hash_checksums") and isinstance(n.value, ast.Attribute)]
+    rep.ob("C05.cover", len(exp) == 1 and norm.canon(rec, exp[0].value) ==
+           f"{rec_file}.hash_checksums", loc=rec.loc(),
            where=rec.qualname, construct=short(exp[0]) if exp else "<none>",
            message="the expected digests are the ones recorded by the parent")
     rl = [l for l in rec.body_nodes() if isinstance(l, ast.For)]
     ok_rec = len(rl) == 1 and ast.unparse(rl[0].iter).endswith(
         ".children_shard_lists") and any(
-            ctx.is_call(rec, c, method="_check_shard_list_info") and c.args and
-            dotted(c.args[0]) == dotted(rl[0].target) for c in ast.walk(rl[0])
+            ctx.is_call(rec, c, method="_check_shard_list_info") and
+            passes_record(rec, c, dotted(rl[0].target))
+            for c in ast.walk(rl[0])
             if isinstance(c, ast.Call)) and not any(
                 isinstance(x, (ast.Break, ast.Continue, ast.If))
                 for x in ast.walk(rl[0]))
